@@ -77,21 +77,21 @@ Definition num_is_integral (n : num) : bool :=
   end.
 
 (** ------------------------------------------------------------------------------------
-    update_config(input_dict, default_dict)               [cij/io/config/config.py]
+    update_config(input_dict, default_dict)               [cij/io/config/config.py, after e564612]
 
       output_dict = {}
       for k in set([*input_dict.keys(), *default_dict.keys()]):
           if k not in input_dict.keys():       output_dict[k] = default_dict[k]
           elif k not in default_dict.keys():   output_dict[k] = input_dict[k]
-          elif isinstance(input_dict[k], dict):
+          elif isinstance(input_dict[k], dict) and isinstance(default_dict[k], dict):
               output_dict[k] = update_config(input_dict[k], default_dict[k])
           else:                                output_dict[k] = input_dict[k]
       return output_dict
 
     [ord] is the enumeration order of the key set (hash-seed dependent in Python).
-    A non-dict argument has no `.keys()`: AttributeError, modelled by [None]; in the
-    recursive call the user value is a dict, so this happens exactly when the default
-    value is not a dict.  The result dict is built in enumeration order. *)
+    A non-dict ARGUMENT has no `.keys()`: AttributeError, modelled by [None]; the recursive
+    call is made on two dicts only, so on two dicts the function is total ([merge_total]).
+    The result dict is built in enumeration order. *)
 Section Update.
   Variable ord : list string -> list string.
 
@@ -109,8 +109,9 @@ Section Update.
                        match lookup k ds with
                        | None => Some v                            (* k not in default_dict *)
                        | Some dv =>
-                           if is_obj v then update_config v dv     (* recursive merge *)
-                           else Some v                             (* user leaf wins *)
+                           if is_obj v && is_obj dv
+                           then update_config v dv                 (* both dicts: recursive merge *)
+                           else Some v                             (* user value wins (leaf or subtree) *)
                        end
                      else find r
                  end) us in
@@ -167,7 +168,7 @@ Fixpoint wf (j : json) : bool :=
   | JObj l => nodupb (keys l) && forallb (fun kv => wf (snd kv)) l
   | _ => true
   end.
-(** no user dict meets a non-dict default (and both arguments are dicts) *)
+(** HISTORY (before e564612): no user dict meets a non-dict default (and both arguments are dicts) *)
 Fixpoint no_clash (u d : json) {struct u} : bool :=
   match u with
   | JObj us =>
@@ -196,6 +197,52 @@ Fixpoint get_path (p : list string) (j : json) : option json :=
                | _ => None
                end
   end.
+
+(** ------------------------------------------------------------------------------------
+    HISTORY: update_config as it was before the repair e564612 (defect D11)   [cij/io/config/config.py]
+
+      output_dict = {}
+      for k in set([*input_dict.keys(), *default_dict.keys()]):
+          if k not in input_dict.keys():       output_dict[k] = default_dict[k]
+          elif k not in default_dict.keys():   output_dict[k] = input_dict[k]
+          elif isinstance(input_dict[k], dict):
+              output_dict[k] = update_config(input_dict[k], default_dict[k])
+          else:                                output_dict[k] = input_dict[k]
+      return output_dict
+
+    [ord] is the enumeration order of the key set (hash-seed dependent in Python).
+    A non-dict argument has no `.keys()`: AttributeError, modelled by [None]; in the
+    recursive call the user value is a dict, so this happens exactly when the default
+    value is not a dict.  The result dict is built in enumeration order. *)
+Section UpdateBeforeFix.
+  Variable ord : list string -> list string.
+
+  Fixpoint update_config_before_fix (u d : json) {struct u} : option json :=
+    match u with
+    | JObj us =>
+        match d with
+        | JObj ds =>
+            let value (k : string) : option json :=
+              (fix find (l : list (string * json)) : option json :=
+                 match l with
+                 | [] => lookup k ds                              (* k not in input_dict *)
+                 | (k', v) :: r =>
+                     if String.eqb k k' then
+                       match lookup k ds with
+                       | None => Some v                            (* k not in default_dict *)
+                       | Some dv =>
+                           if is_obj v then update_config_before_fix v dv     (* recursive merge *)
+                           else Some v                             (* user leaf wins *)
+                       end
+                     else find r
+                 end) us in
+            option_map JObj
+              (collect (map (fun k => (k, value k)) (ord (keys us ++ keys ds))))
+        | _ => None
+        end
+    | _ => None
+    end.
+End UpdateBeforeFix.
 
 (** indices of failing cases (same convention as FOps.failing, without the float dependency) *)
 Fixpoint failing_from {A : Type} (f : A -> bool) (l : list A) (i : nat) : list nat :=
